@@ -73,11 +73,26 @@ class TocCache():
                 cache_data = json.load(cache,
                                        object_hook=self._decoder)
                 cache.close()
+                if not self._is_toc(cache_data):
+                    cache_data = None
+                    raise ValueError('not a TOC')
             except Exception as exp:
                 logger.warning('Error while parsing cache file [%s]:%s',
                                hit, str(exp))
 
         return cache_data
+
+    def _is_toc(self, data):
+        """ Check that decoded cache data is group -> name -> toc element """
+        if not isinstance(data, dict):
+            return False
+        for group in data.values():
+            if not isinstance(group, dict):
+                return False
+            for element in group.values():
+                if not isinstance(element, (LogTocElement, ParamTocElement)):
+                    return False
+        return True
 
     def insert(self, crc, toc):
         """ Save a new cache to file """
